@@ -125,7 +125,7 @@ def run(ctx):
                 print("replay: %d steps, outcomes %s" % (len(steps), [s[1] for s in steps][-10:]))
                 print("replay: oracle failures", failures, "spec-LC-as-written violated in %d states" % spec_lc)
         if not ctx.replay:
-            nwalks, lo, hi = (14, 100, 320) if ctx.tier == "quick" else (90, 200, 2000)
+            nwalks, lo, hi = (12, 100, 280) if ctx.tier == "quick" else (90, 200, 2000)
             budget = 55 if ctx.tier == "quick" else 1500
             for k in range(nwalks):
                 if time.time() - t0 > budget:
@@ -134,7 +134,8 @@ def run(ctx):
                 params = W.gen_params(rng, ctx.tier)
                 profile = rng.choice(sorted(W.PROFILES))
                 nsteps = rng.randint(lo, hi)
-                res = W.walk(h, rng, params, nsteps, profile)
+                prefix = W.scripted_election(params["n"], rng.randint(1, params["n"])) if rng.random() < 0.4 else ()
+                res = W.walk(h, rng, params, nsteps, profile, prefix=prefix)
                 payload = {"params": params, "events": res.intended, "picks": res.picks, "profile": profile}
                 ctx.add_case(json.dumps(payload, sort_keys=True), res.nontrivial)
                 total_steps += len(res.steps)
